@@ -94,3 +94,8 @@ CHECKS["C19"] = (
     "A model NetHome Plus server (httpx.MockTransport injected through the library's own get_async_client parameter) recomputes the signature from the received fields, checks the constant fields, login id, password derivation, session id and udpid, and records every failed check; the client must return exactly the matching token/key entry (never a prefix/suffix/case-flipped/one-digit-off neighbour) or CloudError, and must surface timeouts, HTTP and API errors as CloudError/ApiError after the right number of POSTs. The discovery leg requires a V3 device whose credentials are registered under the little- or big-endian udpid to end up authenticated with exactly those credentials.",
     "ASCII accounts/passwords; JSON always well-formed; signature scheme as publicly documented for NetHome Plus.",
     "DESIGN.md 3/C19")
+CHECKS["C20"] = (
+    "exploration", "grammar-based argv generation from the README table + exhaustive (setting, member, case style) triples + invalid catalogue; msmart.cli.main() run in-process on the virtual network against the model device",
+    "Valid command lines must exit 0 and leave the model device in its initial state overlaid with the documented meaning of each pair (enum by any-case name or integer, raw fan integers, int/float numbers, all boolean spellings, display toggled exactly once iff it differs, property-protocol settings in the device's property store); invalid ones (unknown, read-only, methods, non-members, ill-typed, missing '=' or value), alone or mixed after valid pairs, must exit non-zero with no connection attempt and no datagram on the simulated network.",
+    "An uncaught exception counts as exit status 1. Ambiguous spellings are in neither table.",
+    "DESIGN.md 3/C20")
